@@ -14,6 +14,9 @@ CLAIMED = {
  "C12": dict(cat="proof", tech="Lean 4 theorems about a verified bitwise equivalence checker (itemOk/bwEquiv) evaluated on every generated flag method + public-API correspondence",
              text="Lean theorems (bwEquiv_sound and one *_sound theorem per method role) show that a `true` verdict of itemOk on a method body means the method is exactly the set-algebra operation the property demands for every raw value of the flag's width. The translator re-extracts every method of every generated flag type and synthesised flag struct (~6,500 bodies) from /repo on every run; the real methods and integer conversions of the public flag types are sampled against the specification. Two genuine defects are listed as known findings (clear_* uses reverse_bits; TryFrom<narrower signed> zero-extends negatives).",
              note="Trusted: Lean kernel; tools/rust_flags.py + rustmini.py + wowm.py (syntax transcription; unreadable text becomes `unknown`, which the checker rejects); native evaluation of itemOk in the quick tier; Rust harness.", ref="§4 C12"),
+ "C02": dict(cat="proof", tech="Lean 4 theorems (write_ok_partial, read_write, stream by induction over message sequences) about a code-shaped model of the header arithmetic + correspondence on real messages of every boundary length",
+             text="Lean theorems over unbounded Nat lengths: for every body length the code can write, every expansion/direction and both reader entry points, the written frame is header++body with the prescribed header form (3-byte size exactly when a Wrath server message needs it), every reader parses back opcode and exactly the announced number of bytes, and any finite concatenation of written messages decodes to the same sequence (induction). The u16 overflow of Vanilla/TBC/client totals is proved as an abort theorem and listed as a known finding. The hand model is tied to the code by re-reading the shared constants and by a correspondence on real *_WARDEN_DATA messages at all boundary lengths, with surplus/trailing bytes, and on random message sequences.",
+             note="Trusted: Lean kernel; hand transcription of traits/*.rs, trait_helpers, opcodes.rs header parsing and expected.rs (validated by correspondence); Rust harness; only *_WARDEN_DATA bodies are used for framing.", ref="§4 C02"),
 }
 NA_REASON = "not yet claimed: machinery for this property is still under construction (see DESIGN.md §7 order of construction)"
 
